@@ -65,7 +65,7 @@ def with_nan(ctx, arr, nanmask):
 
 
 def layout_shape(layout):
-    return {"scalar": (), "time": (2,), "time_lat": (2, 2), "time1": (1,)}[layout]
+    return {"scalar": (), "time": (2,), "time_lat": (2, 2), "time1": (1,), "time4": (4,)}[layout]
 
 
 def make_1d(ctx, f, e, layout, a1=None, b1=None, a2=None, b2=None, depth=None):
@@ -74,7 +74,7 @@ def make_1d(ctx, f, e, layout, a1=None, b1=None, a2=None, b2=None, depth=None):
     kw = dict(a1=a1, b1=b1, a2=a2, b2=b2)
     if layout == "scalar":
         return create_1d_spectrum(f, e, T0, 1.0, 2.0, depth=np.inf if depth is None else depth, dims=("frequency",), **kw)
-    if layout in ("time", "time1"):
+    if layout in ("time", "time1", "time4"):
         nt = shp[0]
         return create_1d_spectrum(f, e, np.array([T0 + 3600 * i for i in range(nt)]), np.arange(nt) * 1.0,
                                   np.arange(nt) * 2.0, depth=np.full(nt, np.inf) if depth is None else depth, **kw)
